@@ -284,3 +284,298 @@ func sroaLocals(fset *token.FileSet, info *types.Info, file *ast.File) ([]byte, 
 	}
 	return buf.Bytes(), n
 }
+
+// promoteStructParams: a by-value struct parameter of an unexported function that the function only uses field by
+// field, and that every call site fills from a keyed composite literal or a call-free expression, is passed as one
+// parameter per field (`f(cur)` with `cur.serial` / `cur.cfg` inside becomes `f(cur.serial, cur.cfg)`). The
+// caller's local is then only used field by field and is split by sroaLocals in the next round. Returns the
+// rewritten files of the package.
+func promoteStructParams(fset *token.FileSet, pkg *types.Package, info *types.Info, files []*ast.File, rec map[string]anchorFunc) map[*ast.File]bool {
+	changed := map[*ast.File]bool{}
+	callFree := func(e ast.Expr) bool {
+		ok := true
+		ast.Inspect(e, func(n ast.Node) bool {
+			switch x := n.(type) {
+			case *ast.CallExpr, *ast.FuncLit, *ast.CompositeLit:
+				ok = false
+			case *ast.UnaryExpr:
+				if x.Op == token.ARROW {
+					ok = false
+				}
+			}
+			return ok
+		})
+		return ok
+	}
+	for _, file := range files {
+		for _, d := range file.Decls {
+			fd, ok := d.(*ast.FuncDecl)
+			if !ok || fd.Body == nil || fd.Type.Params == nil {
+				continue
+			}
+			fo, ok := info.Defs[fd.Name].(*types.Func)
+			if !ok || fo.Exported() {
+				continue
+			}
+			sig := fo.Type().(*types.Signature)
+			if sig.Variadic() {
+				continue
+			}
+			// only a recorded function, and only a parameter type it did not have when it was recorded (the unchanged
+			// tree is never rewritten; a new function is folded into its callers anyway)
+			key := funcObjName(fo)
+			if r := recvNameOf(sig); r != "" {
+				key = r + "." + key
+			}
+			af, known := rec[key]
+			if !known {
+				if k2, moved := movedFuncObj[fo.Origin()]; moved {
+					af, known = rec[k2]
+				}
+			}
+			if !known || af.PT == nil {
+				continue
+			}
+			recordedParamType := map[string]bool{}
+			for _, t := range af.PT {
+				recordedParamType[t] = true
+			}
+			// flat index of each parameter name
+			type prm struct {
+				idx   int
+				field *ast.Field
+				v     *types.Var
+				st    *types.Struct
+				types []ast.Expr
+			}
+			var cands []*prm
+			idx := 0
+			for _, fl := range fd.Type.Params.List {
+				if len(fl.Names) == 0 {
+					idx++
+					continue
+				}
+				for _, nm := range fl.Names {
+					v, _ := info.Defs[nm].(*types.Var)
+					if v != nil && len(fl.Names) == 1 && nm.Name != "_" && !recordedParamType[typeStr(v.Type())] {
+						if _, isNamed := types.Unalias(v.Type()).(*types.Named); isNamed {
+							if st, isSt := v.Type().Underlying().(*types.Struct); isSt && st.NumFields() > 0 && st.NumFields() <= 6 {
+								good := true
+								var texprs []ast.Expr
+								for i := 0; i < st.NumFields(); i++ {
+									if st.Field(i).Embedded() || st.Field(i).Name() == "_" {
+										good = false
+										break
+									}
+									foreign := false
+									ts := types.TypeString(st.Field(i).Type(), func(p *types.Package) string {
+										if p != pkg {
+											foreign = true
+										}
+										return ""
+									})
+									te, err := parser.ParseExpr(ts)
+									if foreign || err != nil {
+										good = false
+										break
+									}
+									texprs = append(texprs, te)
+								}
+								if good {
+									cands = append(cands, &prm{idx: idx, field: fl, v: v, st: st, types: texprs})
+								}
+							}
+						}
+					}
+					idx++
+				}
+			}
+			if len(cands) == 0 {
+				continue
+			}
+			// uses of the parameter inside the body: direct fields only
+			var stack []ast.Node
+			bad := map[*types.Var]bool{}
+			ast.Inspect(fd.Body, func(n ast.Node) bool {
+				if n == nil {
+					stack = stack[:len(stack)-1]
+					return true
+				}
+				stack = append(stack, n)
+				id, ok := n.(*ast.Ident)
+				if !ok {
+					return true
+				}
+				v, ok := info.Uses[id].(*types.Var)
+				if !ok {
+					return true
+				}
+				if len(stack) >= 2 {
+					if se, isSel := stack[len(stack)-2].(*ast.SelectorExpr); isSel && se.X == ast.Expr(id) {
+						if sel := info.Selections[se]; sel != nil && sel.Kind() == types.FieldVal && len(sel.Index()) == 1 {
+							// not the operand of &
+							if len(stack) >= 3 {
+								if ue, isU := stack[len(stack)-3].(*ast.UnaryExpr); isU && ue.Op == token.AND {
+									bad[v] = true
+								}
+							}
+							return true
+						}
+					}
+				}
+				bad[v] = true
+				return true
+			})
+			// every use of the function: a plain call
+			var calls []*ast.CallExpr
+			callFile := map[*ast.CallExpr]*ast.File{}
+			okUses := true
+			for _, uf := range files {
+				var stk []ast.Node
+				ast.Inspect(uf, func(n ast.Node) bool {
+					if n == nil {
+						stk = stk[:len(stk)-1]
+						return true
+					}
+					stk = append(stk, n)
+					id, isID := n.(*ast.Ident)
+					if !isID {
+						return true
+					}
+					uo, isF := info.Uses[id].(*types.Func)
+					if !isF || uo.Origin() != fo.Origin() {
+						return true
+					}
+					i := len(stk) - 2
+					var fun ast.Node = id
+					for ; i >= 0; i-- {
+						switch x := stk[i].(type) {
+						case *ast.SelectorExpr:
+							if x.Sel == id {
+								fun = x
+								continue
+							}
+						case *ast.IndexExpr:
+							if x.X == fun {
+								fun = x
+								continue
+							}
+						case *ast.IndexListExpr:
+							if x.X == fun {
+								fun = x
+								continue
+							}
+						case *ast.ParenExpr:
+							fun = x
+							continue
+						}
+						break
+					}
+					if i < 0 {
+						okUses = false
+						return true
+					}
+					call, isCall := stk[i].(*ast.CallExpr)
+					if !isCall || call.Fun != fun || len(call.Args) != sig.Params().Len() || call.Ellipsis.IsValid() {
+						okUses = false
+						return true
+					}
+					calls = append(calls, call)
+					callFile[call] = uf
+					return true
+				})
+			}
+			if !okUses || len(calls) == 0 {
+				continue
+			}
+			// promote the last qualifying parameter first so that flat indices stay valid
+			for ci := len(cands) - 1; ci >= 0; ci-- {
+				c := cands[ci]
+				if bad[c.v] {
+					continue
+				}
+				okArgs := true
+				for _, call := range calls {
+					a := call.Args[c.idx]
+					if cl, isLit := a.(*ast.CompositeLit); isLit {
+						for _, e := range cl.Elts {
+							kv, isKV := e.(*ast.KeyValueExpr)
+							if !isKV {
+								okArgs = false
+								break
+							}
+							if _, isID := kv.Key.(*ast.Ident); !isID {
+								okArgs = false
+							}
+						}
+						continue
+					}
+					if !callFree(a) {
+						okArgs = false
+					}
+				}
+				if !okArgs {
+					continue
+				}
+				// declaration
+				var nf []*ast.Field
+				for _, fl := range fd.Type.Params.List {
+					if fl != c.field {
+						nf = append(nf, fl)
+						continue
+					}
+					for i := 0; i < c.st.NumFields(); i++ {
+						nf = append(nf, &ast.Field{Names: []*ast.Ident{ast.NewIdent("dvS_" + c.v.Name() + "_" + c.st.Field(i).Name())}, Type: c.types[i]})
+					}
+				}
+				fd.Type.Params.List = nf
+				// body
+				astutil.Apply(fd.Body, func(cur *astutil.Cursor) bool {
+					if se, ok := cur.Node().(*ast.SelectorExpr); ok {
+						if id, ok := se.X.(*ast.Ident); ok {
+							if v, ok := info.Uses[id].(*types.Var); ok && v == c.v {
+								cur.Replace(ast.NewIdent("dvS_" + c.v.Name() + "_" + se.Sel.Name))
+								return false
+							}
+						}
+					}
+					return true
+				}, nil)
+				// call sites
+				for _, call := range calls {
+					a := call.Args[c.idx]
+					var repl []ast.Expr
+					if cl, isLit := a.(*ast.CompositeLit); isLit {
+						vals := map[string]ast.Expr{}
+						for _, e := range cl.Elts {
+							kv := e.(*ast.KeyValueExpr)
+							vals[kv.Key.(*ast.Ident).Name] = kv.Value
+						}
+						for i := 0; i < c.st.NumFields(); i++ {
+							f := c.st.Field(i).Name()
+							if e, ok := vals[f]; ok {
+								repl = append(repl, e)
+							} else {
+								repl = append(repl, &ast.SelectorExpr{X: &ast.CompositeLit{Type: cl.Type}, Sel: ast.NewIdent(f)})
+							}
+						}
+					} else {
+						for i := 0; i < c.st.NumFields(); i++ {
+							repl = append(repl, &ast.SelectorExpr{X: a, Sel: ast.NewIdent(c.st.Field(i).Name())})
+						}
+					}
+					na := append([]ast.Expr{}, call.Args[:c.idx]...)
+					na = append(na, repl...)
+					na = append(na, call.Args[c.idx+1:]...)
+					call.Args = na
+					changed[callFile[call]] = true
+				}
+				changed[file] = true
+			}
+			if len(changed) > 0 {
+				return changed // one function per round: the type information of the rewritten call sites is stale
+			}
+		}
+	}
+	return changed
+}
